@@ -370,6 +370,11 @@ def isCommutative (i : Instr) : Bool :=
     t.isInteger || t.isFloat || t.isComplex
   else i.op == "*" || i.op == "==" || i.op == "!=" || i.op == "&" || i.op == "|" || i.op == "^"
 
+/-- the text of a BinOp: the operands of a commutative operation are printed in string order -/
+def binOpText (comm : Bool) (op x y : String) : String :=
+  if comm && decide (y < x) then "BinOp " ++ op ++ ", " ++ y ++ ", " ++ x
+  else "BinOp " ++ op ++ ", " ++ x ++ ", " ++ y
+
 /-- `writeCallCommon` (operand 0 is the callee / receiver, the rest are the arguments) -/
 def Canon.writeCallCommon (c : Canon) (i : Instr) (r : Regs) : String × Regs :=
   let (callee, r) := c.normalizeOperand (i.opVal 0) i r
@@ -476,8 +481,7 @@ def Canon.instrBody (c : Canon) (i : Instr) (r : Regs) : Option String × Regs :
     let (x, r) := no 0 r
     let (y, r) := no 1 r
     let op := c.virtualBinOpToken i
-    if isCommutative i && decide (y < x) then (some ("BinOp " ++ op ++ ", " ++ y ++ ", " ++ x), r)
-    else (some ("BinOp " ++ op ++ ", " ++ x ++ ", " ++ y), r)
+    (some (binOpText (isCommutative i) op x y), r)
   | .UnOp =>
     let (x, r) := no 0 r
     (some ("UnOp " ++ i.op ++ ", " ++ x ++ (if i.b1 then ", CommaOk" else "")), r)
